@@ -33,6 +33,9 @@ pub mod model;
 mod roller;
 pub mod subscriber;
 
+#[cfg(excsn_fibre_verif)]
+pub use roller::verif as roller_verif;
+
 #[cfg(debug_assertions)]
 pub mod debug_report;
 
@@ -61,8 +64,18 @@ pub use model::{LogValue, LogEvent};
 use std::{
   collections::HashMap,
   sync::{atomic::AtomicBool, Arc},
-  thread::JoinHandle,
-  time::{Duration, Instant},
+  time::Duration,
+};
+#[cfg(not(excsn_fibre_verif))]
+use std::{
+  thread::{sleep, JoinHandle},
+  time::Instant,
+};
+// Simulation build: appender threads and the shutdown deadline run on the simulation runtime.
+#[cfg(excsn_fibre_verif)]
+use fibre_verif_rt::{
+  thread::{sleep, JoinHandle},
+  time::Instant,
 };
 
 pub type CustomEventReceiver = fibre::mpsc::BoundedSyncReceiver<LogEvent>;
@@ -160,7 +173,7 @@ impl InitResult {
       if pending.is_empty() || Instant::now() >= deadline {
         break;
       }
-      std::thread::sleep(Duration::from_millis(10));
+      sleep(Duration::from_millis(10));
     }
 
     for (name, _handle) in pending {
